@@ -949,7 +949,7 @@ theorem splice_tier_spec (t : ITier Int) (hwf : t.WF) (a d : Int) (hd : 0 < d) (
       (∀ y, y ∈ t2.es ↔ (y ∈ t.es ∧ y.e ≤ a) ∨ y = ⟨a, a + d, label⟩ ∨
         ∃ iv ∈ t.es, a ≤ iv.s ∧ y = ⟨iv.s + d, iv.e + d, iv.l⟩) ∧
       t2.lo = t.lo ∧ t2.hi = t.hi + d := by
-  obtain ⟨t1, e1, wf1, n1, es1, lo1, hi1⟩ := C08.insert_spec t hwf a d hd hlo .stretch (by intro h; cases h)
+  obtain ⟨t1, e1, wf1, n1, es1, lo1, hi1⟩ := C08.insert_spec t hwf a d hd .stretch (by intro h; cases h)
   have hmem1 : ∀ y, y ∈ t1.es ↔ (y ∈ t.es ∧ y.e ≤ a) ∨ ∃ iv ∈ t.es, a ≤ iv.s ∧ y = ⟨iv.s + d, iv.e + d, iv.l⟩ := by
     intro y
     rw [es1, List.mem_flatMap]
@@ -977,7 +977,7 @@ theorem splice_tier_spec (t : ITier Int) (hwf : t.WF) (a d : Int) (hd : 0 < d) (
     · exact Or.inl h
     · exact Or.inr (by simp only; omega)
   obtain ⟨t2, e2, wf2, n2, mem2, lo2, hi2⟩ :=
-    C11.insert_nocollision t1 wf1 ⟨a, a + d, label⟩ (by simp only; omega) hstr .error hfree
+    C11.insert_nocollision_stripped t1 wf1 ⟨a, a + d, label⟩ (by simp only; omega) hstr .error hfree
   refine ⟨t2, ?_, wf2, by rw [n2, n1], ?_, ?_, ?_⟩
   · unfold spliceTier; rw [e1]; exact e2
   · intro y
@@ -1015,14 +1015,14 @@ with the new entry and the call raises `CollisionError` (nothing is returned) -/
 theorem splice_tier_straddler (t : ITier Int) (hwf : t.WF) (a d : Int) (hd : 0 < d) (hlo : t.lo ≤ a)
     (label : String) (hstr : pyStrip label = label) (iv : Iv Int) (hiv : iv ∈ t.es) (hs : C08.Straddles a iv) :
     spliceTier t a d label = .error .CollisionError := by
-  obtain ⟨t1, e1, wf1, _, es1, _, _⟩ := C08.insert_spec t hwf a d hd hlo .stretch (by intro h; cases h)
+  obtain ⟨t1, e1, wf1, _, es1, _, _⟩ := C08.insert_spec t hwf a d hd .stretch (by intro h; cases h)
   have hm : (⟨iv.s, iv.e + d, iv.l⟩ : Iv Int) ∈ t1.es := by
     rw [es1, List.mem_flatMap]
     refine ⟨iv, hiv, ?_⟩
     unfold C08.spaceP C08.Straddles at *
     rw [if_neg (by omega), if_neg (by omega)]; simp
   unfold spliceTier; rw [e1]
-  exact C11.insert_error t1 wf1 ⟨a, a + d, label⟩ (by simp only; omega) hstr _ hm
+  exact C11.insert_error_stripped t1 wf1 ⟨a, a + d, label⟩ (by simp only; omega) hstr _ hm
     (by unfold C08.Straddles at hs; simp only; omega)
 
 /-! ### textgrid level -/
@@ -1162,13 +1162,13 @@ theorem insertSpace_tier_hi (t : AnyTier Int) (t' : AnyTier Int) (a d H : Int) (
   cases t with
   | I it =>
     obtain ⟨z, hz, rfl⟩ := C12.map_ok h
-    obtain ⟨t1, e1, _, _, _, _, hi1⟩ := C08.insert_spec it hwf a d hd hlo .stretch (by intro h; cases h)
+    obtain ⟨t1, e1, _, _, _, _, hi1⟩ := C08.insert_spec it hwf a d hd .stretch (by intro h; cases h)
     rw [hz] at e1; cases e1
     show z.hi ≤ H + d
     rw [hi1]; have : it.hi ≤ H := hH; omega
   | P pt =>
     obtain ⟨z, hz, rfl⟩ := C12.map_ok h
-    obtain ⟨t1, e1, _, _, _, _, hi1⟩ := C08.pinsert_spec pt hwf a d hd hlo
+    obtain ⟨t1, e1, _, _, _, _, hi1⟩ := C08.pinsert_spec pt hwf a d hd
     have hz' : pt.insertSpace a d = .ok z := hz
     rw [hz'] at e1; cases e1
     show z.hi ≤ H + d
